@@ -462,8 +462,8 @@ PLANS['C03'] = dict(
 PLANS['C05'] = dict(
     rule=RULE_B + RULE_A + 'non-trivial = at least one timed or cancellable wait of the execution slept (its deadline / note / wake-up raced).',
     groups=[
-        G('mu_mix', 'c-plain', 'B', 8, 3000, **MU),
-        G('cond_rounds', 'c-plain', 'B', 4, 3000, **MU),
+        G('mu_mix', 'c-plain', 'B', 14, 14000, thorough=60000, **MU),
+        G('cond_rounds', 'c-plain', 'B', 6, 6000, thorough=60000, **MU),
         G('cv_tokens', 'c-plain', 'B', 2, 2000, owners=cv_owners),
         G('mu_mix', 'c-plain', 'A', 2, 1500, thorough=40000, **MU),
         G('mu_mix', 'cpp-plain', 'B', 4, 20000, tier='thorough', thorough=20000, **MU),
